@@ -10,6 +10,7 @@ import (
 	"context"
 	"encoding/hex"
 	"fmt"
+	"google.golang.org/protobuf/encoding/prototext"
 	"os"
 	"runtime"
 	"strconv"
@@ -257,6 +258,19 @@ func scenarios() []scenario {
 				{{"tdxB", func() error { return gcetcbendorsement.TdxValidate(ctx, att.TdxQuote(mB), to) }, "error"}},
 				{{"sevA", func() error { return gcetcbendorsement.SevValidate(ctx, attA(nil), so) }, "nil"}},
 			}, func() string { return "" }
+		}},
+		{"SevValidate-overwrite-shared-base-policy/A|B", func(f *fixture, pt func(string)) ([][]call, func() string) {
+			// Two options together: a base policy (its guest policy left unset) and Overwrite. The base
+			// policy object is the caller's and is shared by both calls; it must read afterwards as the
+			// caller wrote it.
+			so := &gcetcbendorsement.SevValidateOptions{RootsOfTrust: f.auth.Roots(), Now: f.now, Overwrite: true,
+				BasePolicy: &cpb.Policy{MinimumVersion: "0.0"}}
+			return [][]call{
+					{{"A", func() error { return gcetcbendorsement.SevValidate(ctx, attA(f.endBin), so) }, "nil"}},
+					{{"B", func() error { return gcetcbendorsement.SevValidate(ctx, attB(f.endBin), so) }, "error"}},
+				}, func() string {
+					return fmt.Sprintf("overwrite=%v vmsas=%d base={%s}", so.Overwrite, so.ExpectedLaunchVmsas, prototext.MarshalOptions{}.Format(so.BasePolicy))
+				}
 		}},
 		{"SevValidate-shared-options-preset-endorsement/A|B", func(f *fixture, pt func(string)) ([][]call, func() string) {
 			so := &gcetcbendorsement.SevValidateOptions{RootsOfTrust: f.auth.Roots(), Now: f.now, Endorsement: f.end,
